@@ -648,5 +648,175 @@ theorem ofDFA_wf {d : DFA σ α} (wf : d.WF) : (NFA.ofDFA d).WF := by
     rw [akeys_map_val]
     exact wf.rows _ wf.initOk
 
+/-! ### renaming by discovery index (`retain_names=False`) -/
+
+section renumber
+variable {S : Type} [DecidableEq S]
+
+theorem indexOf_inj {x y : S} : ∀ {l : List S}, x ∈ l → indexOf x l = indexOf y l → x = y
+  | z :: t, hx, h => by
+    simp only [indexOf] at h
+    by_cases hzx : z = x
+    · by_cases hzy : z = y
+      · exact hzx.symm.trans hzy
+      · rw [if_pos hzx, if_neg hzy] at h; omega
+    · by_cases hzy : z = y
+      · rw [if_neg hzx, if_pos hzy] at h; omega
+      · rw [if_neg hzx, if_neg hzy] at h
+        have h := Nat.add_right_cancel h
+        have hx' : x ∈ t := by
+          rcases List.mem_cons.mp hx with e | e
+          · exact absurd e.symm hzx
+          · exact e
+        exact indexOf_inj hx' h
+
+theorem alookup_rename_key {β γ : Type} (f : S → Nat) (g : β → γ) (q : S)
+    (hinj : ∀ k, f k = f q → k = q) (l : List (S × β)) :
+    alookup (f q) (l.map fun kv => (f kv.1, g kv.2)) = (alookup q l).map g := by
+  induction l with
+  | nil => rfl
+  | cons x t ih =>
+    obtain ⟨k, v⟩ := x
+    simp only [List.map_cons, alookup_cons, ih]
+    by_cases hk : k = q
+    · subst hk; simp
+    · have : ¬ f k = f q := fun e => hk (hinj k e)
+      simp [hk, this]
+
+variable (d : DFA S α)
+
+theorem renumber_inj {q : S} (hq : q ∈ d.states) (k : S)
+    (h : indexOf k d.states = indexOf q d.states) : k = q :=
+  (indexOf_inj hq h.symm).symm
+
+theorem renumber_row {q : S} (hq : q ∈ d.states) :
+    d.renumber.row (indexOf q d.states) = (d.row q).map fun e => (e.1, indexOf e.2 d.states) := by
+  unfold DFA.row DFA.row?
+  show (alookup (indexOf q d.states) (d.trans.map fun kv =>
+    (indexOf kv.1 d.states, kv.2.map fun e => (e.1, indexOf e.2 d.states)))).getD [] = _
+  rw [alookup_rename_key (fun s => indexOf s d.states) _ q (renumber_inj d hq)]
+  cases alookup q d.trans <;> rfl
+
+theorem renumber_step {q : S} (hq : q ∈ d.states) (a : α) :
+    d.renumber.step? (some (indexOf q d.states)) a =
+      (d.step? (some q) a).map fun s => indexOf s d.states := by
+  simp only [DFA.step?]
+  rw [renumber_row d hq, alookup_map_val (fun s => indexOf s d.states)]
+
+theorem renumber_run {d : DFA S α} (wf : d.WF) (w : List α) : ∀ q ∈ d.states,
+    d.renumber.run (some (indexOf q d.states)) w =
+      (d.run (some q) w).map fun s => indexOf s d.states := by
+  induction w with
+  | nil => intro q _; rfl
+  | cons a w ih =>
+    intro q hq
+    rw [DFA.run_cons, DFA.run_cons, renumber_step d hq]
+    cases hs : d.step? (some q) a with
+    | none => simp
+    | some q' => exact ih q' (DFA.step?_mem wf hs)
+
+theorem good_run {d : DFA S α} (wf : d.WF) (w : List α) : ∀ s, d.Good s → d.Good (d.run s w) := by
+  induction w with
+  | nil => intro s h; exact h
+  | cons a w ih => intro s h; rw [DFA.run_cons]; exact ih _ (DFA.good_step wf a h)
+
+/-- **Renaming preserves the language** (the renaming is injective on the states). -/
+theorem renumber_accepts {d : DFA S α} (wf : d.WF) (w : List α) :
+    d.renumber.accepts w = d.accepts w := by
+  unfold DFA.accepts
+  show d.renumber.isFinal (d.renumber.run (some (indexOf d.init d.states)) w) = _
+  rw [renumber_run wf w d.init wf.initOk]
+  have hg := good_run wf w (some d.init) wf.initOk
+  cases hr : d.run (some d.init) w with
+  | none => rfl
+  | some q =>
+    rw [hr] at hg
+    simp only [Option.map_some, DFA.isFinal]
+    rw [Bool.eq_iff_iff]
+    simp only [decide_eq_true_eq]
+    show indexOf q d.states ∈ d.finals.map (fun s => indexOf s d.states) ↔ _
+    rw [List.mem_map]
+    constructor
+    · rintro ⟨x, hx, hxe⟩
+      rw [← renumber_inj d hg x hxe]; exact hx
+    · intro h; exact ⟨q, h, rfl⟩
+
+/-- **Renaming preserves validity.** -/
+theorem renumber_wf {d : DFA S α} (wf : d.WF) : d.renumber.WF := by
+  have htr : ∀ kv ∈ d.renumber.trans, ∃ kv' ∈ d.trans, kv.1 = indexOf kv'.1 d.states ∧
+      kv.2 = kv'.2.map fun e => (e.1, indexOf e.2 d.states) := by
+    intro kv hkv
+    simp only [DFA.renumber, List.mem_map] at hkv
+    obtain ⟨kv', h', rfl⟩ := hkv
+    exact ⟨kv', h', rfl, rfl⟩
+  have hkeys : ∀ (r : List (α × S)), akeys (r.map fun e => (e.1, indexOf e.2 d.states)) = akeys r :=
+    fun r => akeys_map_val (fun s => indexOf s d.states) r
+  refine ⟨?_, ?_, ?_, ?_, ?_, ?_⟩
+  · intro q hq
+    obtain ⟨s, hs, rfl⟩ := List.mem_map.mp (show q ∈ d.states.map _ from hq)
+    obtain ⟨kv, hkv, hk⟩ := List.mem_map.mp (wf.rows s hs)
+    refine List.mem_map.mpr ⟨(indexOf kv.1 d.states, kv.2.map fun e => (e.1, indexOf e.2 d.states)), ?_, ?_⟩
+    · exact List.mem_map.mpr ⟨kv, hkv, rfl⟩
+    · show indexOf kv.1 d.states = _; rw [hk]
+  · intro hp kv hkv a ha
+    obtain ⟨kv', h', _, h2⟩ := htr kv hkv
+    rw [h2, hkeys]
+    exact wf.complete hp kv' h' a ha
+  · intro kv hkv a ha
+    obtain ⟨kv', h', _, h2⟩ := htr kv hkv
+    rw [h2, hkeys] at ha
+    exact wf.symsOk kv' h' a ha
+  · intro kv hkv q hq
+    obtain ⟨kv', h', _, h2⟩ := htr kv hkv
+    rw [h2] at hq
+    simp only [avals, List.map_map, List.mem_map, Function.comp] at hq
+    obtain ⟨e, he, rfl⟩ := hq
+    exact List.mem_map.mpr ⟨e.2, wf.tgtOk kv' h' e.2 (List.mem_map.mpr ⟨e, he, rfl⟩), rfl⟩
+  · exact List.mem_map.mpr ⟨d.init, wf.initOk, rfl⟩
+  · intro q hq
+    obtain ⟨s, hs, rfl⟩ := List.mem_map.mp (show q ∈ d.finals.map _ from hq)
+    exact List.mem_map.mpr ⟨s, wf.finalsOk s hs, rfl⟩
+
+end renumber
+
+/-! ### the refinement system of `_minify` on all states of a valid DFA is the DFA itself -/
+
+section minify
+variable {S : Type} [DecidableEq S]
+
+theorem mdelta_eq_step {d : DFA S α} (wf : d.WF) (s : Option S) (a : α) :
+    DFA.mdelta d.states d.trans s a = d.step? s a := by
+  cases s with
+  | none => rfl
+  | some q =>
+    simp only [DFA.mdelta]
+    show (match alookup a (d.row q) with
+      | some t => if t ∈ d.states then some t else none
+      | none => none) = alookup a (d.row q)
+    cases h : alookup a (d.row q) with
+    | none => rfl
+    | some t =>
+      have : t ∈ d.states := DFA.step?_mem wf (q := q) (a := a) h
+      simp [this]
+
+theorem mrun_eq_run {d : DFA S α} (wf : d.WF) (w : List α) : ∀ s : Option S,
+    DFA.mrun d.states d.trans s w = d.run s w := by
+  induction w with
+  | nil => intro s; rfl
+  | cons a w ih =>
+    intro s
+    show DFA.mrun d.states d.trans (DFA.mdelta d.states d.trans s a) w = _
+    rw [mdelta_eq_step wf, ih]; rfl
+
+theorem mfin_eq_isFinal (d : DFA S α) (s : Option S) : DFA.mfin d.finals s = d.isFinal s := by
+  cases s <;> rfl
+
+/-- The language `_minify` is asked to preserve is the language of the DFA. -/
+theorem mlang_eq_accepts {d : DFA S α} (wf : d.WF) (w : List α) :
+    DFA.mfin d.finals (DFA.mrun d.states d.trans (some d.init) w) = d.accepts w := by
+  rw [mrun_eq_run wf, mfin_eq_isFinal]; rfl
+
+end minify
+
 end C07
 end AV
